@@ -34,6 +34,29 @@ func tr(t int, p ipt) ipt {
 	return ipt{p[0]*x.scale + x.dx, p[1]*x.scale + x.dy}
 }
 
+// scaledMeasures: every coordinate multiplied by 2^-40 (exact in float64) must give the bit-for-bit scaled centroid,
+// area (by the square) and length: an absolute epsilon anywhere in the formulas shows at that magnitude.
+func scaledMeasures(c *mc.Ctx, g orb.Geometry, desc func() string) {
+	const k = 1.0 / (1 << 40)
+	cen, a := planar.CentroidArea(g)
+	l := planar.Length(g)
+	sg := refgeom.Scale(g, k)
+	sc, sa := planar.CentroidArea(sg)
+	same := func(x, y float64) bool { return x == y || (x != x && y != y) }
+	if !same(sa, a*k*k) || !same(sc[0], cen[0]*k) || !same(sc[1], cen[1]*k) || !same(planar.Length(sg), l*k) {
+		c.Failf("scaling", "scaled by 2^-40: centroid %v area %v length %v; unscaled %v, %v, %v | %s", sc, sa, planar.Length(sg), cen, a, l, desc())
+	}
+}
+
+// scaledDistance is the same device for a point-to-geometry distance.
+func scaledDistance(c *mc.Ctx, g orb.Geometry, q orb.Point, desc func() string) {
+	const k = 1.0 / (1 << 40)
+	d := planar.DistanceFrom(g, q)
+	if sd := planar.DistanceFrom(refgeom.Scale(g, k), orb.Point{q[0] * k, q[1] * k}); sd != d*k && !(sd != sd && d != d) {
+		c.Failf("scaling", "scaled by 2^-40: DistanceFrom(%v) = %v, unscaled %v | %s", q, sd, d, desc())
+	}
+}
+
 func fpt(p ipt) orb.Point { return orb.Point{float64(p[0]), float64(p[1])} }
 
 func rat(n int64) *big.Rat { return new(big.Rat).SetInt64(n) }
@@ -118,6 +141,9 @@ func main() {
 			desc := func() string { return fmt.Sprintf("transform=%q ring=%v", transforms[t].name, closed) }
 			for vi, v := range []orb.Ring{closed, ring} {
 				cen, area := planar.CentroidArea(v)
+				if t == 0 {
+					scaledMeasures(c, v, desc)
+				}
 				if area != wantArea {
 					c.Failf("area", "Area = %v, exact shoelace = %v (spelling %d) | %s", area, wantArea, vi, desc())
 				}
@@ -164,6 +190,9 @@ func main() {
 					}
 					want := math.Sqrt(f64(best))
 					got, idx := planar.DistanceFromWithIndex(closed, fpt(q))
+					if t == 0 {
+						scaledDistance(c, closed, fpt(q), desc)
+					}
 					if !relClose(got, want, 0) && math.Abs(got-want) > 1e-9*scale {
 						c.Failf("distance", "DistanceFrom(ring, %v) = %v, exact = %v | %s", fpt(q), got, want, desc())
 						return
@@ -246,6 +275,9 @@ func main() {
 		}
 		desc := func() string { return fmt.Sprintf("transform=%q polygon=%v", transforms[t].name, poly) }
 		cen, a := planar.CentroidArea(poly)
+		if t == 0 {
+			scaledMeasures(c, poly, desc)
+		}
 		if a != f64(area) || a < 0 {
 			c.Failf("polygon-area", "Area = %v, exact outer - holes = %v | %s", a, f64(area), desc())
 		}
@@ -353,6 +385,9 @@ func main() {
 				}
 				b1, b2 := best(rings), best([][]ipt{p2ir})
 				w1, w2 := math.Sqrt(f64(b1)), math.Sqrt(f64(b2))
+				if t == 0 {
+					scaledDistance(c, poly, fpt(q), desc)
+				}
 				if got := planar.DistanceFrom(poly, fpt(q)); math.Abs(got-w1) > 1e-9*math.Max(scale, w1) {
 					c.Failf("polygon-distance", "DistanceFrom(polygon, %v) = %v, exact %v | %s", fpt(q), got, w1, desc())
 					return
